@@ -635,6 +635,9 @@ def run(ctx):
     from .c03 import r4_local_atomic
 
     r4_local_atomic(Relabel(ctx, 'C02.R11'))
+    from . import shared as _sh
+
+    _sh.deletion_confined_to_gc_commands(ctx, 'C02.R12')
     # ... and those bytes are the ones whose digest names the object: the record handed to the upload workers is built in
     # the iteration that produced the chunk, from values computed for that chunk (a stale payload under a fresh name
     # would replace / pre-empt the right object for every snapshot that references the digest)
